@@ -101,6 +101,12 @@ func (m *Mixin) RemoveTemporaryParents(env *GlobalEnvironment) {
 		return
 	}
 
+	if m.Checked {
+		// already fully defined by code checked earlier (REPL), keep the mixins included so far
+		m.parent = withoutTemporaryParents(m.parent)
+		return
+	}
+
 	m.parent = nil
 	m.singleton.parent = env.StdSubtypeClass(symbol.Mixin)
 }
